@@ -48,7 +48,7 @@ fn sorted<T: Ord>(mut v: Vec<T>) -> Vec<T> {
     v.sort();
     v
 }
-fn summarize_raw(lib: &Library) -> Result<LibSummary, String> {
+fn summarize_raw(lib: &Library, defs: &crate::gen::rawgen::LayerDefs) -> Result<LibSummary, String> {
     let layers = lib.layers.read().map_err(|_| "lock")?;
     let mut out = LibSummary { name: lib.name.clone(), units: format!("{:?}", lib.units), cells: BTreeMap::new() };
     for c in lib.cells.iter() {
@@ -65,8 +65,8 @@ fn summarize_raw(lib: &Library) -> Result<LibSummary, String> {
             s.annotations = sorted(lay.annotations.iter().map(|t| (t.string.clone(), t.loc.x as i64, t.loc.y as i64)).collect());
             for e in &lay.elems {
                 let l = layers.get(e.layer).ok_or("unknown layer key")?;
-                let pn = l.num(&e.purpose).ok_or("purpose without number")?;
-                s.shapes.entry((l.layernum as i64, pn as i64)).or_default().push((cshape_of(&e.inner), e.net.clone().unwrap_or_default()));
+                let pn = defs.num_of(e.layer, &e.purpose).or_else(|| l.num(&e.purpose)).ok_or("purpose without number")?;
+                s.shapes.entry((l.layernum as i64, pn as i64)).or_default().push((cshape_of(&e.inner), format!("{}|{}", kind_of(&e.inner), e.net.clone().unwrap_or_default())));
             }
             for v in s.shapes.values_mut() {
                 v.sort();
@@ -80,30 +80,38 @@ fn summarize_raw(lib: &Library) -> Result<LibSummary, String> {
                 let mut m = BTreeMap::new();
                 for (k, v) in &p.shapes {
                     let l = layers.get(*k).ok_or("unknown layer key")?;
-                    m.insert((l.layernum as i64, l.num(&raw::LayerPurpose::Pin).map_or(-1, |n| n as i64)), sorted(v.iter().map(|s| (cshape_of(s), String::new())).collect()));
+                    m.insert((l.layernum as i64, defs.num_of(*k, &raw::LayerPurpose::Pin).or_else(|| l.num(&raw::LayerPurpose::Pin)).map_or(-1, |n| n as i64)), sorted(v.iter().map(|s| (cshape_of(s), kind_of(s).to_string())).collect()));
                 }
                 s.ports.push((p.net.clone(), m));
             }
             for (k, v) in &a.blockages {
                 let l = layers.get(*k).ok_or("unknown layer key")?;
-                s.blockages.insert((l.layernum as i64, l.num(&raw::LayerPurpose::Obstruction).map_or(-1, |n| n as i64)), sorted(v.iter().map(|s| (cshape_of(s), String::new())).collect()));
+                s.blockages.insert((l.layernum as i64, defs.num_of(*k, &raw::LayerPurpose::Obstruction).or_else(|| l.num(&raw::LayerPurpose::Obstruction)).map_or(-1, |n| n as i64)), sorted(v.iter().map(|s| (cshape_of(s), kind_of(s).to_string())).collect()));
             }
         }
         out.cells.insert(c.name.clone(), s);
     }
     Ok(out)
 }
+/// The schema distinguishes rectangles, polygons and paths: the kind is part of what must survive (a four-point polygon is not a rectangle).
+fn kind_of(s: &raw::Shape) -> &'static str {
+    match s {
+        raw::Shape::Rect(_) => "R",
+        raw::Shape::Polygon(_) => "G",
+        raw::Shape::Path(_) => "P",
+    }
+}
 fn pshapes(ls: &proto::LayerShapes) -> Vec<ShapeKey> {
     let mut v = Vec::new();
     for r in &ls.rectangles {
         let ll = r.lower_left.clone().unwrap_or_default();
-        v.push((CShape::Poly(rect_cycle((ll.x, ll.y), (ll.x + r.width, ll.y + r.height))), r.net.clone()));
+        v.push((CShape::Poly(rect_cycle((ll.x, ll.y), (ll.x + r.width, ll.y + r.height))), format!("R|{}", r.net)));
     }
     for p in &ls.polygons {
-        v.push((CShape::Poly(canon_cycle(&p.vertices.iter().map(|q| (q.x, q.y)).collect::<Vec<_>>())), p.net.clone()));
+        v.push((CShape::Poly(canon_cycle(&p.vertices.iter().map(|q| (q.x, q.y)).collect::<Vec<_>>())), format!("G|{}", p.net)));
     }
     for p in &ls.paths {
-        v.push((CShape::Path(p.points.iter().map(|q| (q.x, q.y)).collect(), p.width), p.net.clone()));
+        v.push((CShape::Path(p.points.iter().map(|q| (q.x, q.y)).collect(), p.width), format!("P|{}", p.net)));
     }
     v.sort();
     v
@@ -146,13 +154,13 @@ fn summarize_proto(p: &proto::Library) -> LibSummary {
                 let mut m = BTreeMap::new();
                 for ls in &port.shapes {
                     let l = ls.layer.clone().unwrap_or_default();
-                    m.insert((l.number, l.purpose), pshapes(ls).into_iter().map(|(s, _)| (s, String::new())).collect());
+                    m.insert((l.number, l.purpose), pshapes(ls).into_iter().map(|(s, t)| (s, t[..1].to_string())).collect());
                 }
                 s.ports.push((port.net.clone(), m));
             }
             for ls in &a.blockages {
                 let l = ls.layer.clone().unwrap_or_default();
-                s.blockages.insert((l.number, l.purpose), pshapes(ls).into_iter().map(|(s, _)| (s, String::new())).collect());
+                s.blockages.insert((l.number, l.purpose), pshapes(ls).into_iter().map(|(s, t)| (s, t[..1].to_string())).collect());
             }
         }
         out.cells.insert(c.name.clone(), s);
@@ -237,7 +245,7 @@ pub fn proto_of(g: &GenRaw) -> Result<proto::Library, String> {
             }
             for e in &lay.elems {
                 let l = layers.get(e.layer).ok_or("layer")?;
-                let key = (l.layernum as i64, l.num(&e.purpose).ok_or("purpose")? as i64);
+                let key = (l.layernum as i64, g.defs.num_of(e.layer, &e.purpose).or_else(|| l.num(&e.purpose)).ok_or("purpose")? as i64);
                 let idx = match pl.shapes.iter().position(|ls| ls.layer.as_ref().map(|x| (x.number, x.purpose)) == Some(key)) {
                     Some(i) => i,
                     None => {
@@ -259,7 +267,7 @@ pub fn proto_of(g: &GenRaw) -> Result<proto::Library, String> {
                 keys.sort_by_key(|k| layers.get(**k).map(|l| l.layernum));
                 for k in keys {
                     let l = layers.get(*k).ok_or("layer")?;
-                    let mut ls = proto::LayerShapes { layer: Some(proto::Layer::new(l.layernum as i64, l.num(&raw::LayerPurpose::Pin).ok_or("pin")? as i64)), ..Default::default() };
+                    let mut ls = proto::LayerShapes { layer: Some(proto::Layer::new(l.layernum as i64, g.defs.num_of(*k, &raw::LayerPurpose::Pin).or_else(|| l.num(&raw::LayerPurpose::Pin)).ok_or("pin")? as i64)), ..Default::default() };
                     for s in &port.shapes[k] {
                         add(&mut ls, s, "");
                     }
@@ -271,7 +279,7 @@ pub fn proto_of(g: &GenRaw) -> Result<proto::Library, String> {
             keys.sort_by_key(|k| layers.get(**k).map(|l| l.layernum));
             for k in keys {
                 let l = layers.get(*k).ok_or("layer")?;
-                let mut ls = proto::LayerShapes { layer: Some(proto::Layer::new(l.layernum as i64, l.num(&raw::LayerPurpose::Obstruction).ok_or("obs")? as i64)), ..Default::default() };
+                let mut ls = proto::LayerShapes { layer: Some(proto::Layer::new(l.layernum as i64, g.defs.num_of(*k, &raw::LayerPurpose::Obstruction).or_else(|| l.num(&raw::LayerPurpose::Obstruction)).ok_or("obs")? as i64)), ..Default::default() };
                 for s in &a.blockages[k] {
                     add(&mut ls, s, "");
                 }
@@ -321,7 +329,7 @@ impl Prop for C14 {
         let cfg = RawCfg::proto();
         let g = rand_raw_lib(&mut cx.rng, &cfg);
         cx.eval();
-        let want = match summarize_raw(&g.lib) {
+        let want = match summarize_raw(&g.lib, &g.defs) {
             Ok(w) => w,
             Err(e) => {
                 cx.inconclusive(format!("generator: {}", e));
@@ -366,7 +374,7 @@ impl Prop for C14 {
                     }
                     Ok(Ok(l)) => l,
                 };
-                match summarize_raw(&back) {
+                match summarize_raw(&back, &g.defs) {
                     Err(e) => cx.violation("import|unresolvable", json!({"error": e})),
                     Ok(got) => match first_diff(&want, &got) {
                         Some((class, at)) => cx.violation(&format!("roundtrip|{}", class), json!({"at": at})),
